@@ -25,6 +25,23 @@ CLAIMED = {
     ),
 }
 
+CLAIMED["C01"] = (
+    "The real FileStorage/WriteAheadLog code runs over a model file system (two byte arrays) in which the crash point "
+    "(which mutating file call the process dies before, and how many bytes of a torn write_all arrived) is a symbolic "
+    "variable. Obligations decided by the solver for all contents within the bounds: (A) every write/resize appends its "
+    "complete undo record before touching the data file, a crash leaves a prefix of it, and applying it with the real "
+    "apply_wal_record at ANY later crash point restores content and length; (B) repair discards exactly a torn tail; "
+    "(C) replay is newest-first and clears the log, on open, on Drop and in apply_wal; (D) flush empties the log. "
+    "DESIGN.md composes them by induction over the calls of a transaction. Bounded model checking fits: the failing "
+    "inputs are single points (zero-length write, growth, same region written twice).",
+    "Assumed: file calls are atomic up to a torn prefix, the OS keeps call order, set_len growth zero-fills (model fs, "
+    "harness/agdb/verif_fs.rs); Storage never writes beyond the end or across it (asserted by the C04 harnesses). Bounds: "
+    "data <= 8 bytes, payload <= 3 bytes, <= 2 records per log. Stubs: fmt::format, DbError::new, From<io::Error>, "
+    "wal_filename, vec::from_elem (fixed capacity 8). Outside: fsync/power-loss reordering, the composition step itself "
+    "(paper argument), end-to-end runs of the open path on symbolic logs (exceeded 39 GB).",
+    "DESIGN.md §4 C01",
+)
+
 NOT_APPLICABLE = {
 }
 
